@@ -242,20 +242,43 @@ def check_seq(ctx, cases, res, mode):
     return keep
 
 
-def run_conc(ctx):
+def conc_cases(ctx, race):
     rng = ctx.rng
     cases = []
+    sd = lambda: rng.randrange(1 << 30)
+    if not race:
+        # quick: a few seconds, no race detector. Add-heavy rounds on fresh testers (distinct addresses per goroutine,
+        # so nearly every query probes and adds) and overlapping addresses (lookups refresh recency while others add).
+        for cp in (1, 2, 3):
+            for g in (8, 16, 32):
+                cases.append({"dl": "1h", "cl": cp, "dn": "1h", "cn": cp, "g": g, "n": 120, "addrs": 0, "distinct": True,
+                              "rounds": 40, "seed": sd(), "clearer": False})
+        for cp in (1, 2, 3):
+            cases.append({"dl": "1h", "cl": cp, "dn": "1h", "cn": 4 - cp, "g": 16, "n": 200, "addrs": 3 * cp + 2, "distinct": False,
+                          "rounds": 40, "seed": sd(), "clearer": cp == 2})
+        cases.append({"dl": "40us", "cl": 2, "dn": "20us", "cn": 1, "g": 8, "n": 400, "addrs": 9, "distinct": False,
+                      "rounds": 20, "seed": sd(), "clearer": True})
+        return cases
     for g in (2, 8, 32):
         for (cl, cn) in ((1, 1), (2, 3), (5, 4), (0, 3), (3, 0)):
             for clearer in (False, True):
-                cases.append({"dl": "1h", "cl": cl, "dn": "1h", "cn": cn, "g": g, "n": 400, "addrs": 12,
-                              "seed": rng.randrange(1 << 30), "clearer": clearer})
+                cases.append({"dl": "1h", "cl": cl, "dn": "1h", "cn": cn, "g": g, "n": 400, "addrs": 12, "distinct": False,
+                              "rounds": 3, "seed": sd(), "clearer": clearer})
+    for cp in (1, 2, 3):
+        for g in (8, 32):
+            cases.append({"dl": "1h", "cl": cp, "dn": "1h", "cn": cp, "g": g, "n": 150, "addrs": 0, "distinct": True,
+                          "rounds": 60, "seed": sd(), "clearer": False})
     # lifetimes short enough that entries expire while the workers run
     for g in (4, 16):
-        cases.append({"dl": "50us", "cl": 3, "dn": "20us", "cn": 2, "g": g, "n": 2000, "addrs": 10,
-                      "seed": rng.randrange(1 << 30), "clearer": True})
+        cases.append({"dl": "50us", "cl": 3, "dn": "20us", "cn": 2, "g": g, "n": 2000, "addrs": 10, "distinct": False,
+                      "rounds": 2, "seed": sd(), "clearer": True})
+    return cases
+
+
+def run_conc(ctx, race):
+    cases = conc_cases(ctx, race)
     rc, out, res = ctx.go_inpkg(".", "pkg/station/liveness", {"zz_verif_driver_test.go": "c18/liveness_driver_test.go"},
-                                "^TestVerifC18Conc$", cases, race=True)
+                                "^TestVerifC18Conc$", cases, race=race, timeout=900)
     if "DATA RACE" in out:
         ctx.fail("race:liveness-cache", "the race detector reports a data race in concurrent PhantomIsLive/ClearExpiredCache",
                  {"output": out[out.find("DATA RACE") - 200:][:1500]})
@@ -263,21 +286,53 @@ def run_conc(ctx):
         if "DATA RACE" not in out:
             ctx.broken("driver", "concurrent driver produced no results: " + out[-800:])
         return
+    tag = "conc-race" if race else "conc"
     for c, r in zip(cases, res):
-        ctx.count(("conc", tuple(sorted(c.items()))), kind="conc/g=%d" % c["g"])
+        ctx.count((tag, tuple(sorted(c.items()))), kind="%s/%s" % (tag, "distinct" if c["distinct"] else "overlap"))
+        inflight = c["g"] + (1 if c["clearer"] else 0)
         if r["panic"]:
             ctx.fail("conc:panic", "panic under concurrent queries: " + r["panic"], c)
         for side, cp, fin, mx in (("live", c["cl"], r["finl"], r["maxl"]), ("nonlive", c["cn"], r["finn"], r["maxn"])):
             if cp > 0 and fin > cp:
-                ctx.fail("conc:bound-at-quiescence/%s" % side, "%s cache holds %d > capacity %d after all queries returned" % (side, fin, cp),
+                ctx.fail("conc:bound-at-quiescence/%s" % side,
+                         "%s cache holds %d > capacity %d verdicts after all of %d goroutines returned (GOMAXPROCS %d)" % (side, fin, cp, c["g"], r["procs"]),
                          dict(c, observed=r))
-            # lru_bounded_concurrent: |entries| <= capacity + operations in flight (workers + clearer)
-            if cp > 0 and mx > cp + c["g"] + 1:
-                ctx.fail("conc:bound-in-flight/%s" % side, "%s cache was seen with %d entries > capacity %d + %d in-flight operations"
-                         % (side, mx, cp, c["g"] + 1), dict(c, observed=r))
+            # lru_bounded_concurrent: |entries| <= capacity + operations in flight
+            if cp > 0 and mx > cp + inflight:
+                ctx.fail("conc:bound-in-flight/%s" % side, "%s cache was seen with %d entries > capacity %d + %d operations in flight"
+                         % (side, mx, cp, inflight), dict(c, observed=r))
+        # no_leak_concurrent at quiescence: every stored verdict is tracked by the recency list; evicted verdicts are not served
+        if r["leaked"]:
+            ctx.fail("conc:evicted-entry-kept" + ("-and-served" if r["leaked_served"] else ""),
+                     "after quiescence %d verdict(s) are stored that the LRU no longer tracks (first: round %d, %s); %d of them were answered "
+                     "from the cache without a probe" % (r["leaked"], r["leak_round"], r["leak_key"], r["leaked_served"]), dict(c, observed=r))
         if r["wrong"]:
             ctx.fail("conc:wrong-verdict", "%d queries returned a verdict no measurement of that address produced" % r["wrong"], dict(c, observed=r))
-    ctx.cov["concurrent"] = {"cases": len(cases), "sample": res[:3]}
+    ctx.cov[tag] = {"cases": len(cases), "queries": sum(r["queries"] for r in res), "procs": res[0]["procs"] if res else None, "sample": res[:2]}
+
+
+def run_sections(ctx):
+    """order of the atomic sections of Add / Lookup / ClearExpired, observed with the map lock held by the driver"""
+    rc, out, res = ctx.go_inpkg(".", "pkg/station/liveness", {"zz_verif_driver_test.go": "c18/liveness_driver_test.go"},
+                                "^TestVerifC18Sections$", None, timeout=300)
+    if res is None or len(res) != 3:
+        ctx.broken("driver", "section-order driver produced no results: " + out[-600:])
+        return
+    terms = []
+    for i, r in enumerate(res):
+        ctx.count(("sections", r["op"]), kind="sections/" + r["op"])
+        terms.append("(%s, (%s, %s, %s), (%s, %s))" % (gN(i), gbool(r["list_changed"]), gbool(r["map_changed"]), gbool(r["returned"]),
+                                                     gbool(r["after_in_map"]), gbool(r["after_in_list"])))
+    ctx.cov["sections"] = res
+    mm = ctx.coq_mismatches("sections", HEADER + "From CJ Require Import C18.ModelConc.\n", terms, "chk_sections", need_vo=["C18/Run.vo"])
+    if mm:
+        ctx.cov["mismatches"] += len(mm)
+        r = res[mm[0]]
+        ctx.broken("correspondence", "the order of the atomic sections of lruCache.%s differs from the concurrent model (ModelConc.section_lock: the "
+                   "first section takes the verdict-map lock): with that lock held by the driver the operation %s"
+                   % ({"add": "Add", "lookup": "Lookup", "clear": "ClearExpired"}[r["op"]],
+                      "returned" if r["returned"] else "changed the recency list" if r["list_changed"] else "changed the map" if r["map_changed"] else "ended in an unexpected state"),
+                   {"observed": r})
 
 
 def run(ctx):
@@ -326,5 +381,8 @@ def run(ctx):
     ctx.require_kinds(["kinds/map+map", "kinds/lru+lru", "kinds/map+lru", "kinds/lru+map", "kinds/nil+nil", "kinds/nil+map",
                        "kinds/lru+nil", "with-cache-hit", "with-shrink", "shift/rand", "shift/rand8"] +
                       (["fake/exh", "fake/rand", "fake/rand8", "fake/corpus"] if fake_ok else ["shift/exh", "shift/corpus"]))
-    if ctx.tier == "thorough" or os.environ.get("VERIF_C18_CONC") == "1":
-        run_conc(ctx)
+    run_sections(ctx)
+    run_conc(ctx, race=False)
+    ctx.require_kinds(["conc/distinct", "conc/overlap", "sections/add", "sections/lookup", "sections/clear"])
+    if ctx.tier == "thorough":
+        run_conc(ctx, race=True)
